@@ -389,6 +389,13 @@ func VerifC14Generic() {
 	ca, cb := vsymInt("ca"), vsymInt("cb")
 	cs, cerr := internal.ConcatItems([]c14Counts{{"k": ca}, {"k": cb, "j": 1}})
 	vassert(cerr == nil && cs["k"] == ca+cb && cs["j"] == 1, "a concat function registered for a map-kind type is the one that concatenates its chunks")
+	// (0b) the same chunks under a key of an enclosing map: the registered function still decides
+	msU, merr := internal.ConcatItems([]map[string]any{{"u": c14Counts{"k": ca}}, {"u": c14Counts{"k": cb, "j": 1}}})
+	vassert(merr == nil, "chunks of a registered map-kind type under a map key concatenate")
+	if merr == nil {
+		u, ok := msU["u"].(c14Counts)
+		vassert(ok && u["k"] == ca+cb && u["j"] == 1, "under a map key as well, the registered function concatenates the values of a map-kind type")
+	}
 	n := 3
 	// (1) a struct type without a function
 	var xs []c14Plain
